@@ -13,7 +13,7 @@ for d in ${BENIGN_ONLY:-/verif/benign/b*.diff}; do
   rm -rf $work/repo; mkdir -p $work/repo; cp -r $work/base/file_builder $work/repo/
   (cd $work/repo && patch -p1 -s < $d) || { echo "$n APPLY-FAILED"; bad=1; continue; }
   res=""
-  for pid in C01 C02 C03 C04 C05 C06 C07 C08 C10 C11 C12 C13 C14 C15 C16 C17 C18; do
+  for pid in ${BENIGN_PIDS:-C01 C02 C03 C04 C05 C06 C07 C08 C10 C11 C12 C13 C14 C15 C16 C17 C18}; do
     out=$(cd $work/verif && PYVC_REPO=$work/repo timeout 1800 ./check $pid 2>&1); rc=$?
     [ $rc -eq 1 ] && { bad=1; echo "$n $pid FALSE ALARM: $(echo "$out" | grep ^VIOLATION | head -1 | cut -c1-200)"; }
     [ $rc -eq 3 ] && { bad=1; echo "$n $pid CHECKER ERROR"; }
